@@ -5,6 +5,11 @@ HERE = os.path.dirname(os.path.dirname(os.path.abspath(__file__)))
 
 CLAIMED = {
  # id: (level, technique, text, note, design_ref)
+ "C19": ("exploration",
+         "deterministic simulation of thread schedules: real threads run one at a time under a seeded baton-passing scheduler with pre-emption at Python lines, native-call boundaries and C function entries (function-instrumented build + pre-loaded shim), cooperative library locks, per-thread entropy streams; per-thread refinement against the solo run",
+         "Seeded search over schedules: 2-8 (16 thorough) simulated threads, each running 1-3 operations on its own objects (hashes/XOFs/MACs with copy() and continued use of original and clones, AEAD and classic ciphers, EC point arithmetic, key construction/generation/import, ECDSA, EdDSA incl. prehash with a caller-owned hash/XOF object, ECDH, RSA sign/decrypt, modexp, KDFs, Shamir, gc.collect), with nearly half of the runs racing on the first use of one curve, in a forked child whose lazily initialised state is pristine. The scheduler's PRNG decides every context switch (per-run pre-emption densities and switch budgets). Afterwards every program runs alone with the same entropy stream: observations must be identical, caller-owned inputs (buffers, hash/XOF objects handed to signers, point operands, operands of modexp) unchanged, no new exception, no deadlock on the library's locks, no crash. Sampling of schedules, not proof.",
+         "Pre-emption inside C is at function-entry granularity of non-inlined functions. Operations on the same object from two threads are not generated. Entropy drawn while a curve is being lazily loaded is served from a separate stream so that solo and interleaved runs are comparable.",
+         "DESIGN.md section 4 (C19), section 3.3"),
  "C17": ("fault_enumeration",
          "deterministic simulation on an AddressSanitizer build with allocator fault injection: every history runs fault-free and then once per failing allocation index (seeded sample in the quick tier, all indices in the thorough tier), each in a forked child",
          "Histories (C09 segmentation / buffer-carrier / aliasing histories, C10 life-cycle histories with copies, and a sweep over hashes, XOF squeezing, KDFs, bcrypt, scrypt, PKCS#1 v1.5 and OAEP decoding, strxor, AES-NI short and partial inputs, CFB with illegal segment sizes, OCB tag lengths, BLAKE2 parameters, EC points on nine curves incl. mixed-curve operands, ECDSA/EdDSA, DH, modexp, with copy / delete / gc.collect in between) are executed against /repo built with -fsanitize=address and PYTHONMALLOC=malloc. A shim linked into the build makes the i-th allocation of pycryptodome's C code return NULL; i ranges over a seeded sample of 24 indices per history (quick) or all of them (thorough). Any AddressSanitizer report or death by signal is a violation, keyed by error kind and the first pycryptodome frame. Enumerates allocation failures per history; histories themselves are sampled.",
